@@ -130,6 +130,19 @@ memmove(void *dst, const void *src, size_t n)
 	return dst;
 }
 
+/* memcmp as a byte loop: no access for n == 0, so memcmp(NULL, p, 0) (sub.c
+ * with the empty topic; harmless on every platform, DESIGN R6) is not flagged */
+int
+memcmp(const void *a, const void *b, size_t n)
+{
+	const unsigned char *x = a, *y = b;
+	for (size_t i = 0; i < n; i++) {
+		if (x[i] != y[i])
+			return x[i] < y[i] ? -1 : 1;
+	}
+	return 0;
+}
+
 struct servent;
 struct servent *
 getservbyname(const char *name, const char *proto)
